@@ -234,7 +234,7 @@ func (g *gen) flattenChain() {
 			}
 			fo := &ext_j5pb.FieldOptions{Type: &ext_j5pb.FieldOptions_Object{Object: &ext_j5pb.ObjectField{Flatten: true}}}
 			if g.chance(1, 3) {
-				fo = &ext_j5pb.FieldOptions{Type: &ext_j5pb.FieldOptions_Message{Message: &ext_j5pb.MessageField{Flatten: true}}}
+				fo = &ext_j5pb.FieldOptions{Type: &ext_j5pb.FieldOptions_Message{Message: &ext_j5pb.MessageFieldOptions{Flatten: true}}}
 			}
 			ff := &descriptorpb.FieldDescriptorProto{Name: proto.String(fmt.Sprintf("next_l%d", l)), Number: proto.Int32(num),
 				Type: kMessage.Enum(), Label: descriptorpb.FieldDescriptorProto_LABEL_OPTIONAL.Enum(),
